@@ -37,7 +37,9 @@ def run(db, rep, tier):
     r1(db, rep)
     r2(db, rep)
     r3(db, rep)
+    r3_mirrors(db, rep)
     r4(db, rep)
+    r4_min_frame(db, rep)
     rep.explanation = ("Ordering / protocol part of C05: for each checksum producer the zero-write-sum-fold-complement-store-patch sequence "
                        "and the pseudo-header arguments (R1); header fields are final when written (R2); tags come from the immediate "
                        "child and the IPv6 extension chain is linked for every index (R3); padding is zero after the payload (R4). "
@@ -490,3 +492,105 @@ def r4(db, rep):
             if not sk_ok:
                 what.append("the inner layer is not skipped first")
             rep.violation("R4-padding", key, facts.loc(f, fl), "; ".join(what))
+
+
+# ---------------------------------------------------------------------------
+def r3_mirrors(db, rep):
+    """a class that keeps a private mirror `f_` of a header field `header_.f` for the serialiser (IPv6::next_header_ is the
+    tag written in front of an unrecognised payload) must update the mirror wherever the API sets the field"""
+    n = 0
+    for rn, r in sorted(db.records.items()):
+        if not rn.startswith("Tins::") or "Tins::PDU" not in db.all_bases(rn):
+            continue
+        hdr = None
+        for fl in r.get("fields", []):
+            t = facts.tyi(r, fl["t"]) or {}
+            if fl["name"] in ("header_",) and t.get("k") == "rec":
+                hdr = db.records.get(t.get("name"))
+        if hdr is None:
+            continue
+        hfields = set(fl["name"] for fl in hdr.get("fields", []))
+        for fl in r.get("fields", []):
+            nm = fl["name"]
+            if not nm.endswith("_") or nm[:-1] not in hfields:
+                continue
+            mirror, field = nm, nm[:-1]
+            # is the mirror read by the serialiser?
+            ws = [f for f in db.functions.values() if f.get("rec") == rn and f["qual"].endswith("::write_serialization") and f.get("body")]
+            if not ws or not any(x["k"] == "MemberExpr" and x.get("member") == mirror for x in facts.fn_nodes(ws[0])):
+                continue
+            n += 1
+            key = "%s:%s~%s" % (rn.split("::")[-1], field, mirror)
+            bad = None
+            n_set = 0
+            for f in db.functions.values():
+                if f.get("rec") != rn or not f.get("body") or f["id"].endswith(" const"):
+                    continue
+                q = f["qual"].split("::")[-1]
+                if q in ("write_serialization", "set_last_next_header"):
+                    continue        # the serialiser's own, derived stores
+                sets_field = sets_mirror = False
+                for x in facts.fn_nodes(f):
+                    ms = member_store(f, x)
+                    if ms:
+                        path = facts.expr_str(ms[2]).replace("this->", "")
+                        if path == "header_." + field:
+                            sets_field = True
+                        if path == mirror:
+                            sets_mirror = True
+                if sets_field:
+                    n_set += 1
+                    if not sets_mirror:
+                        bad = f
+            if bad is not None:
+                rep.violation("R3-tags", key, facts.loc(bad),
+                              "%s sets header_.%s but not its mirror %s, which write_serialization stores back in front of a payload whose "
+                              "type it does not know: the value set through the API is replaced by a stale one on the wire" % (bad["qual"].split("::")[-1], field, mirror))
+            elif n_set == 0:
+                rep.analysis_broken("%s: no setter of header_.%s found" % (rn, field))
+            else:
+                rep.ok("R3-tags", key, "%s:%s" % (r["file"], r["line"]), "%d function(s) set header_.%s together with %s" % (n_set, field, mirror))
+    if n < 1:
+        rep.analysis_broken("no mirrored header field found (IPv6::next_header_ expected)")
+
+
+def r4_min_frame(db, rep):
+    """EthernetII: header + payload + trailer_size() >= 60 whatever the payload is (E-STREAMFX form of trailer_size
+    evaluated on the partition of its conditions)"""
+    from rules import c02
+    K = "Tins::EthernetII"
+    t = c02.final(db, K, "trailer_size", "() const")
+    h = c02.final(db, K, "header_size", "() const")
+    if t is None or h is None:
+        rep.analysis_broken("EthernetII::trailer_size / header_size vanished")
+        return
+    fx = sx.Fx(db, K)
+    key = "EthernetII:min-frame"
+    try:
+        T = fx.exec_fn(sx.Ctx(fx, t, cls=K)).get("§ret")
+        H = fx.exec_fn(sx.Ctx(fx, h, cls=K)).get("§ret")
+        cells = sx.Cells(fx)
+        cells.collect(T)
+        cells.terms.setdefault("inner_pdu_.size()", set()).update([0, 1, 45, 46, 47, 100])
+        bad = None
+        n = 0
+        for cell in cells.assignments(20000):
+            s = cell.get("inner_pdu_.size()", 0) if cell.get("inner_pdu_", 1) else 0
+            tv = sx.flat_value(fx, T, cell)
+            hv = sx.flat_value(fx, H, cell)
+            if tv is None or hv is None:
+                continue
+            n += 1
+            if hv + s + tv < 60:
+                bad = "with a payload of %d byte(s) (%s) the frame is %d + %d + %d = %d bytes, below the 60-byte minimum" % (
+                    s, ", ".join("%s=%s" % kv for kv in sorted(cell.items()) if kv[0] != "inner_pdu_.size()"), hv, s, tv, hv + s + tv)
+                break
+    except (sx.Opaque, ieval.Unknown) as e:
+        rep.undecided("R4-padding", key, facts.loc(t), "trailer_size outside the evaluator: %s" % e)
+        return
+    if bad:
+        rep.violation("R4-padding", key, facts.loc(t), bad)
+    elif n == 0:
+        rep.analysis_broken("EthernetII::trailer_size: no cell could be evaluated")
+    else:
+        rep.ok("R4-padding", key, facts.loc(t), "14 + payload + trailer_size() >= 60 in all %d cells" % n)
